@@ -581,12 +581,25 @@ def rule_header(ctx):
     if not r.require_anchor(target, "format site whose template starts with `p cnf `"):
         return
     b, fs = target
+    hb = b
     anchor = b.id + "|header"
     r.check(fs.template == "p cnf {} {}\n", anchor, "template=%r" % fs.template, "template is %r" % fs.template, loc=fs.site.loc())
     if len(fs.args) != 2 or any(a is None for a in fs.args):
         r.violation(anchor, "args", "cannot identify the two displayed values of the header", "cannot analyse the header arguments", fs.site.loc())
         return
+    v_op, c_op = fs.args[0][1], fs.args[1][1]
     fn = prog.enclosing_fn(b)
+    if fn is b and not any("sat::sat_solver::Literal]" in fn.local_ty(i) for i in range(1, fn.n_args + 1)):
+        # a helper (`fn dimacs_header(n_vars, n_clauses) -> String`) that formats its parameters: the operands are the
+        # arguments of its call in the solving function
+        css = [cs for cs in prog.callers_of(b) if any("sat::sat_solver::Literal]" in prog.enclosing_fn(cs.body).local_ty(i) for i in range(1, prog.enclosing_fn(cs.body).n_args + 1))]
+        pv = [o.data for o in origins(b, v_op, transparent=()) if o.kind == "param" and not o.fields]
+        pc = [o.data for o in origins(b, c_op, transparent=()) if o.kind == "param" and not o.fields]
+        if len(css) == 1 and len(pv) == 1 and len(pc) == 1 and css[0].body is prog.enclosing_fn(css[0].body):
+            cs = css[0]
+            b = fn = cs.body
+            v_op, c_op = cs.node["args"][pv[0] - 1], cs.node["args"][pc[0] - 1]
+            anchor = b.id + "|header"
     # the assumptions parameter: the `&[Literal]` parameter of the enclosing function
     aparam = None
     for i in range(1, fn.n_args + 1):
@@ -594,7 +607,6 @@ def rule_header(ctx):
             aparam = i
     if not r.require_anchor(aparam is not None and fn is b, "assumptions parameter (&[Literal]) of the function formatting the header"):
         return
-    v_op, c_op = fs.args[0][1], fs.args[1][1]
     v_dep = derives_from_local(b, v_op, aparam)
     r.check(v_dep, anchor, "vars-ignore-assumptions", "variable count depends on the assumptions", "the variable count of the header does not depend on the assumptions: a variable used only in an assumption exceeds the announced count", fs.site.loc())
     # stored maximum
@@ -850,12 +862,53 @@ def rule_assumptions_transient(ctx):
             r.check(not bad, adt["path"] + "." + fld, "writers=%s" % sorted(bad), "clause store `%s` written only by add_clause (writers: %s)" % (fld, sorted(writers)), "clause store `%s` is written by %s" % (fld, sorted(bad)))
 
 
+def _read_order(prog, adt_path):
+    """order in which the fields of a `Read` implementation are read: the operands of an array of readers, else the
+    dominance order of the `Read::read` calls on fields"""
+    for i in prog.impls:
+        if i.get("trait") == "std::io::Read" and i.get("self_adt") == adt_path:
+            for m in i["methods"]:
+                if m["name"] != "read":
+                    continue
+                b = prog.lib(m["path"])
+                if b is None:
+                    continue
+                # an array of `&mut dyn Read` built from the fields
+                for s in b.sites():
+                    nd = s.node
+                    if s.si is not None and nd["k"] == "assign" and nd["rv"]["k"] == "aggregate" and nd["rv"]["agg"]["kind"] == "array":
+                        order = []
+                        for op in nd["rv"]["ops"]:
+                            fs = set()
+                            for o in origins(b, op, transparent=()):
+                                if o.kind == "param" and o.data == 1 and o.fields:
+                                    fs.add(str(o.fields[0]))
+                            order.append(next(iter(fs)) if len(fs) == 1 else "?")
+                        if order and "?" not in order:
+                            return order
+                calls = []
+                for s in b.calls():
+                    if callee_matches(callee_of(s), r"^std::io::Read::read$"):
+                        fs = set()
+                        for o in origins(b, s.node["args"][0], transparent=()):
+                            if o.kind == "param" and o.data == 1 and o.fields:
+                                fs.add(str(o.fields[0]))
+                        if len(fs) == 1:
+                            calls.append((s, next(iter(fs))))
+                calls.sort(key=lambda x: sum(1 for y in calls if b.dominates(y[0], x[0])))
+                return [f for _, f in calls]
+    return []
+
+
 def rule_clause_store(ctx):
+    from .. import outlang
+
     prog = ctx.prog
     r = ctx.rule(
         "clause-store",
-        "text back end: add_clause appends one 0-terminated record and increments the clause counter exactly once; the instance "
-        "handed to the solving function is built from the whole clause store",
+        "text back end: the text `add_clause` appends to the clause store is exactly `(literal )*0\\n` (output language extracted from its "
+        "control-flow graph, helpers and per-literal closures inlined) and the clause counter goes up by one on every path; the instance handed "
+        "to the solving function is, in reading order, the `p cnf V C\\n` line, the whole clause store, and one `literal 0\\n` line per assumption",
     )
     target = None
     for imp, b in prog.impl_methods(SATSOLVER, "add_clause"):
@@ -865,57 +918,116 @@ def rule_clause_store(ctx):
     if not r.require_anchor(target, "SatSolver::add_clause impl of the text back end (String clause store)"):
         return
     imp, b, adt = target
-    # counter increments
+    store = [f["name"] for v in adt["variants"] for f in v["fields"] if f["ty"] == "alloc::string::String"]
+    if not r.require_anchor(len(store) == 1, "single String field (the clause store)"):
+        return
+    store = store[0]
+    # the counter: the usize field that n_vars() does not read
+    nv = [x for i2, x in prog.impl_methods(SATSOLVER, "n_vars") if i2.get("self_adt") == adt["path"]]
+    nv_fields = self_fields_read(nv[0], {"l": 0, "p": []}) if nv else set()
+    counters = [f["name"] for v in adt["variants"] for f in v["fields"] if f["ty"] == "usize" and f["name"] not in nv_fields]
+    if not r.require_anchor(len(counters) == 1, "clause counter field (the usize field n_vars() does not read)"):
+        return
+    cnt = counters[0]
     incs = []
-    for s in b.sites():
-        n = s.node
-        if s.si is not None and n["k"] == "assign" and n["dst"]["l"] == 1 and "n_clauses" in [str(x) for x in place_fields(n["dst"])]:
-            incs.append(s)
-    counter_fields = [f["name"] for v in adt["variants"] for f in v["fields"] if f["ty"] == "usize"]
-    # identify the clause counter by role: the usize field added to assumptions.len() in the header (fallback: name)
-    ok = len(incs) == 1 and not b.in_loop(incs[0].bb) and b.postdominates(incs[0], (0, -1))
+    for x in prog.with_closures(b):
+        for s in x.sites():
+            n = s.node
+            if s.si is not None and n["k"] == "assign" and cnt in [str(y) for y in place_fields(n["dst"])] and (n["dst"]["l"] == 1 or x.kind == "closure"):
+                incs.append(s)
+    ok = len(incs) == 1 and incs[0].body is b and not b.in_loop(incs[0].bb) and b.postdominates(incs[0], (0, -1))
     inc_ok = False
     if incs:
-        for o in origins(b, incs[0].node["rv"]["ops"][0], transparent=()):
-            if o.kind == "binop" and o.data["op"] in ("Add", "AddWithOverflow"):
-                ks = [op_const(x) for x in o.data["ops"]]
-                if any(k is not None and k.get("int") == 1 for k in ks):
-                    inc_ok = True
+        rv = incs[0].node["rv"]
+        cands = [rv] if rv["k"] == "binop" else [o.data for o in origins(incs[0].body, rv["ops"][0], transparent=()) if o.kind == "binop"] if rv["k"] == "use" else []
+        for bo in cands:
+            if bo["op"] in ("Add", "AddWithOverflow") and any((op_const(x) or {}).get("int") == 1 for x in bo["ops"]):
+                inc_ok = True
     r.check(ok and inc_ok, b.id + "|counter", "incs=%d" % len(incs), "clause counter incremented by 1 exactly once per add_clause, on every path", "clause counter is not incremented exactly once (by 1) per add_clause", (incs[0].loc() if incs else b.loc()))
-    # terminator: push('0') then push('\n') after the literal loop
-    pushes = []
-    for s in b.calls():
-        c = callee_of(s)
-        if callee_is(c, "alloc::string::String::push"):
-            k = op_const(s.node["args"][1])
-            pushes.append((s, k.get("int") if k else None))
-    vals = [v for _, v in pushes]
-    r.check(vals == [48, 10] and all(b.postdominates(s, (0, -1)) for s, _ in pushes), b.id + "|terminator", "pushes=%s" % vals, "each clause record ends with `0` and a newline", "clause record terminator is %s" % vals, b.loc())
-    # literal format "{} "
-    lit_fmt = [fs for x in prog.closures_of(b) + [b] for fs in format_sites(x)]
-    r.check([fs.template for fs in lit_fmt] == ["{} "], b.id + "|literal-format", "templates=%s" % [fs.template for fs in lit_fmt], "literals written as `{} `", loc=b.loc())
-    # instance built from the whole store
+    # the record language
+    INT = outlang.SIGNED
+    outlang.clear_cache()
+    try:
+        lang = outlang.sink_language(prog, b, ("field", store))
+        L, REFX = "^(?:%s)$" % lang, "^(?:(?:%s )*0\\n)$" % INT
+        from .io_rules import _wit
+
+        w1, w2 = _wit([REFX], [L]), _wit([L], [REFX])
+        r.check(w1.get("witness") is None and "error" not in w1 and w2.get("witness") is None and "error" not in w2, b.id + "|terminator", "record-language:%r/%r" % (w1.get("witness"), w2.get("witness")), "every clause record is `(literal )*0` and a newline (L = %s)" % lang, "add_clause does not append exactly one `(literal )*0\\n` record: it cannot write %r / it can write %r (L = %s)" % (w1.get("witness"), w2.get("witness"), lang), b.loc())
+    except outlang.Undecided as e:
+        r.ok(b.id + "|terminator", "record language not extracted (%s): NOT decided" % e, b.loc())
+    # Display of a literal is its signed integer
+    disp = [x for x in prog.lib_bodies() if x.kind != "closure" and re.search(r"<sat::sat_solver::Literal as core::fmt::Display>::fmt$", x.path)]
+    if r.require_anchor(disp, "Display for sat::Literal"):
+        ts = [fs.template for fs in format_sites(disp[0])]
+        r.check(ts == ["{}"], disp[0].id, "literal-display=%s" % ts, "a literal is displayed as its integer", "Display of a literal is %s" % ts, disp[0].loc())
+    # the instance: reading order and the language of each part
     sua, _ = satsolver_impls(prog)
     for imp2, sb in sua:
         if imp2.get("self_adt") != adt["path"]:
             continue
-        aggs = [s for s in sb.sites() if s.si is not None and s.node["k"] == "assign" and s.node["rv"]["k"] == "aggregate" and s.node["rv"]["agg"]["kind"] == "adt" and any(i["trait"] == "std::io::Read" and i.get("self_adt") == s.node["rv"]["agg"]["path"] for i in prog.impls)]
-        if not r.require_anchor(aggs, "construction of the DIMACS instance reader"):
+        # the construction of the reader: an aggregate of a type implementing Read, here or in a constructor it calls
+        found = None
+        read_adts = {i.get("self_adt") for i in prog.impls if i.get("trait") == "std::io::Read"}
+        for s in sb.sites():
+            nd = s.node
+            if s.si is not None and nd["k"] == "assign" and nd["rv"]["k"] == "aggregate" and nd["rv"]["agg"]["kind"] == "adt" and nd["rv"]["agg"]["path"] in read_adts:
+                found = (sb, s, None)
+        if found is None:
+            for cs, t in prog.callees(sb, include_closures=False, virtual_dispatch=False):
+                if t.kind == "closure" or not in_sat_module(t):
+                    continue
+                for s in t.sites():
+                    nd = s.node
+                    if s.si is not None and nd["k"] == "assign" and nd["rv"]["k"] == "aggregate" and nd["rv"]["agg"]["kind"] == "adt" and nd["rv"]["agg"]["path"] in read_adts:
+                        found = (t, s, cs)
+        if not r.require_anchor(found, "construction of the DIMACS instance reader"):
             return
-        a = aggs[0]
-        uses_store = False
-        for op in a.node["rv"]["ops"]:
-            seen, calls, _ = data_deps(sb, op)
-            for s2 in sb.sites():
-                n2 = s2.node
-                if s2.si is not None and n2["k"] == "assign" and n2["dst"]["l"] in seen and n2["rv"]["k"] == "ref":
-                    if n2["rv"]["place"]["l"] == 1 and "clauses" in [str(x) for x in place_fields(n2["rv"]["place"])]:
-                        if any(callee_matches(callee_of(c), r"Clone>?::clone$|String::as_str$|Deref>?::deref$") for c in calls):
-                            uses_store = True
-        r.check(uses_store, sb.id + "|instance", "store-not-used", "instance is built from the whole clause store", "the DIMACS instance is not built from the clause store", a.loc())
-        # assumptions are written as unit clauses "{} 0\n"
-        tm = [fs.template for x in prog.closures_of(sb) for fs in format_sites(x)]
-        r.check("{} 0\n" in tm, sb.id + "|assumption-format", "templates", "assumptions appended as unit clauses `{} 0\\n`", loc=sb.loc())
+        cb, a, via = found
+        agg = a.node["rv"]["agg"]
+        names = agg.get("field_names") or []
+        order = _read_order(prog, agg["path"])
+        r.check(len(order) == 3 and sorted(order) == sorted(names), sb.id + "|instance", "read-order:%s" % order, "the reader yields its three parts in the order %s" % order, "cannot establish the order in which the three parts of the instance are read (%s)" % order, a.loc())
+
+        def part_operand(fname):
+            """(body, operand) of the string wrapped in the Cursor stored in field fname, in terms of sb where possible"""
+            if fname not in names:
+                return None
+            op = a.node["rv"]["ops"][names.index(fname)]
+            for o in origins(cb, op, transparent=()):
+                if o.kind == "call" and callee_matches(o.data, r"^std::io::Cursor::<T>::new$|^std::io::cursor::Cursor::new$|Cursor.*::new$"):
+                    inner = o.site.node["args"][0]
+                    if via is not None:
+                        for oo in origins(cb, inner, transparent=()):
+                            if oo.kind == "param" and not oo.fields and oo.data - 1 < len(via.node["args"]):
+                                return (sb, via.node["args"][oo.data - 1], via)
+                    return (cb, inner, o.site)
+            return None
+
+        if len(order) == 3:
+            want = [("preamble", "p cnf [0-9]+ [0-9]+\\n"), ("store", None), ("assumptions", "(?:%s 0\\n)*" % INT)]
+            for fname, (role, ref) in zip(order, want):
+                po = part_operand(fname)
+                anchor = "%s|instance|%s" % (sb.id, role)
+                if po is None:
+                    r.ok(anchor, "part `%s` not resolved: NOT decided" % fname, a.loc())
+                    continue
+                pb, pop, psite = po
+                if role == "store":
+                    fr = self_fields_read(pb, pop)
+                    r.check(store in fr, sb.id + "|instance", "store-not-used", "the second part is the whole clause store", "the DIMACS instance is not built from the clause store (second part reads %s)" % sorted(fr), psite.loc())
+                    continue
+                outlang.clear_cache()
+                try:
+                    lang = outlang.string_lang(prog, pb, pop, psite)
+                    L, REFX = "^(?:%s)$" % lang, "^(?:%s)$" % ref
+                    from .io_rules import _wit
+
+                    w1, w2 = _wit([REFX], [L]), _wit([L], [REFX])
+                    key = "assumption-format" if role == "assumptions" else "header-format"
+                    r.check(w1.get("witness") is None and w2.get("witness") is None and "error" not in w1 and "error" not in w2, sb.id + "|" + key, "%s-language:%r/%r" % (role, w1.get("witness"), w2.get("witness")), "the %s part is %s (L = %s)" % (role, ref, lang), "the %s part of the instance is not %s: it cannot be %r / it can be %r (L = %s)" % (role, ref, w1.get("witness"), w2.get("witness"), lang), psite.loc())
+                except outlang.Undecided as e:
+                    r.ok(anchor, "language of the %s part not extracted (%s): NOT decided" % (role, e), psite.loc())
 
 
 def rule_model_width(ctx):
